@@ -134,7 +134,7 @@ Fixpoint sv_sweep (v : variant) (fuel : nat) (cs : list sport) : list sport * re
   | [] => ([], Ok [])
   | c :: r =>
       if s_closed c then let '(r', x) := sv_sweep v fuel r in (c :: r', x)
-      else match s_iter_pending v fuel fuel c with
+      else match s_iter_pending v (S (S (length (s_in c) + length (s_queue c)))) fuel c with    (* enough polls for everything the client can still deliver *)
            | (c1, Ok l) => let '(r', x) := sv_sweep v fuel r in (c1 :: r', match x with Ok l2 => Ok (l ++ l2) | Raise e => Raise e end)
            | (c1, Raise e) => (c1 :: r, Raise e)
            end
